@@ -450,6 +450,10 @@ impl Cfg {
             }
         }
         let join_conditions = self.get_join_conditions();
+        // A loop counter depends on itself, so propagation never finds its degree.
+        for var in self.get_constant_variables(&join_conditions) {
+            env.set_degree(&var, &Constant.into());
+        }
         let mut rerun = true;
         let start = Instant::now();
         #[cfg(feature = "verif")]
@@ -522,6 +526,87 @@ impl Cfg {
             result.push(conditions);
         }
         result
+    }
+
+    /// Returns the (versions of the) local variables of a template which are constant by
+    /// construction: each expression assigned to the variable is built from numbers,
+    /// parameters of the template and such variables, and so is each condition which chooses
+    /// between the arguments of its phi expressions. A loop counter is the typical case.
+    fn get_constant_variables(&self, join_conditions: &[Vec<Index>]) -> Vec<VariableName> {
+        if matches!(self.definition_type(), DefinitionType::Function) {
+            // The parameters of a function are not known to be constant.
+            return Vec::new();
+        }
+        // The expressions assigned to each local variable (to any version of it), and the
+        // basic block of each assignment.
+        let mut assigned: HashMap<VariableName, Vec<(Index, &Expression)>> = HashMap::new();
+        for basic_block in self.iter() {
+            for stmt in basic_block.iter() {
+                if let Statement::Substitution { meta, var, rhe, .. } = stmt {
+                    if meta.type_knowledge().is_local() {
+                        let assignment = (basic_block.index(), rhe);
+                        assigned.entry(var.without_version()).or_default().push(assignment);
+                    }
+                }
+            }
+        }
+        // Remove variables until all which remain satisfy the condition.
+        let mut constants: HashSet<VariableName> = assigned.keys().cloned().collect();
+        loop {
+            let removed: Vec<VariableName> = constants
+                .iter()
+                .filter(|&name| {
+                    assigned[name].iter().any(|&(index, rhe)| {
+                        let conditional_join = matches!(rhe, Expression::Phi { .. })
+                            && join_conditions[index].iter().any(|&header| {
+                                !matches!(
+                                    self.basic_blocks[header].statements().last(),
+                                    Some(Statement::IfThenElse { cond, .. })
+                                        if self.is_constant_expression(cond, &constants)
+                                )
+                            });
+                        conditional_join || !self.is_constant_expression(rhe, &constants)
+                    })
+                })
+                .cloned()
+                .collect();
+            if removed.is_empty() {
+                break;
+            }
+            for name in &removed {
+                constants.remove(name);
+            }
+        }
+        let mut result = Vec::new();
+        for basic_block in self.iter() {
+            for stmt in basic_block.iter() {
+                if let Statement::Substitution { var, .. } = stmt {
+                    if constants.contains(&var.without_version()) {
+                        result.push(var.clone());
+                    }
+                }
+            }
+        }
+        result
+    }
+
+    /// Returns true if the expression is built from numbers, parameters of the template and
+    /// the given variables.
+    fn is_constant_expression(&self, expr: &Expression, constants: &HashSet<VariableName>) -> bool {
+        use Expression::*;
+        match expr {
+            Number(_, _) => true,
+            Variable { name, .. } => {
+                self.parameters().contains(name) || constants.contains(&name.without_version())
+            }
+            InfixOp { lhe, rhe, .. } => {
+                self.is_constant_expression(lhe, constants)
+                    && self.is_constant_expression(rhe, constants)
+            }
+            PrefixOp { rhe, .. } => self.is_constant_expression(rhe, constants),
+            Phi { args, .. } => args.iter().all(|arg| constants.contains(&arg.without_version())),
+            _ => false,
+        }
     }
 
     /// Propagate constant values along the CFG.
